@@ -155,15 +155,28 @@ def worker(batch):
 
     out = {"n": len(batch), "items": [], "corr": [], "for_validator": [], "params": 0, "literals": 0}
     impl = []
+    kept = []           # (case, the interface object a parse returned, a snapshot of it): later calls must not change what was returned
+    view = lambda ir_: json.dumps({"doc": ir_.get("doc"), "name": ir_.get("name"), "params": [[k, dict(v)] for k, v in (ir_.get("params") or {}).items()],
+                                   "returns": [[k, dict(v)] for k, v in (ir_.get("returns") or {}).items()]}, default=repr, sort_keys=True)
     for c in batch:
         def f(case):
             with contextlib.redirect_stderr(io.StringIO()):
                 s = cdd.json_schema.emit.json_schema(copy.deepcopy(to_ir(case)))
                 s2 = json.loads(json.dumps(s))
                 back = cdd.json_schema.parse.json_schema(copy.deepcopy(s2))
+                kept.append((case, back, view(back)))
+                if len(kept) % 3 == 0:
+                    # ... nor a re-emission of an interface that was parsed earlier
+                    cdd.json_schema.emit.json_schema(copy.deepcopy(kept[-2][1]))
+                    cdd.json_schema.emit.json_schema(kept[-3][1] if False else copy.deepcopy(kept[-3][1]))
             r_ = (back.get("returns") or {}).get("return_type")
             return s2, {k: dict(v) for k, v in back["params"].items()}, back.get("doc"), (None if r_ is None else {k: r_.get(k) for k in ("typ", "doc") if r_.get(k) is not None})
         impl.append(guarded(f, c, 20))
+    for case_, obj_, snap_ in kept:
+        if view(obj_) != snap_:
+            out["items"].append({"cls": "C06/history/an-interface-returned-earlier-was-changed-by-a-later-call", "case": case_,
+                                 "detail": "returned %s ; after the rest of the batch it reads %s" % (snap_[:300], view(obj_)[:300])})
+            break
     # json_schema_file: what is WRITTEN for one / several descriptions is what json_schema returns for each of them
     import os
     import tempfile
@@ -199,6 +212,10 @@ def worker(batch):
                 out["items"].append({"cls": "C06/file/raises", "case": group[0], "detail": str(v)[:200]})
             continue
         want, got = v
+        if len(want) != len(got):
+            out["items"].append({"cls": "C06/file/schema-count", "case": group[0],
+                                 "detail": "%d description(s) given, %d schema(s) written" % (len(want), len(got))})
+            continue
         for c, w, g_ in zip(group, want, got):
             if w != g_:
                 keys = sorted(k for k in set(w) | set(g_) if w.get(k) != g_.get(k))
